@@ -1,7 +1,8 @@
 (** C14, program-level supplement: the table of calls that create, truncate,
     write, rename or remove a path in the non-test, linux-built files of the
-    packages owning the three kinds of file (generated into Gen/Writers.v by
-    tools/c14writers, go/ast) is judged by [writer_ok]: a row is fine when it is
+    packages owning the three kinds of file, plus the lease database of
+    dhcpsvc, the configuration manager of the next API and the updater
+    (generated into Gen/Writers.v by tools/c14writers, go/ast) is judged by [writer_ok]: a row is fine when it is
     a rename-based writer (renameio / renameio/maybe / aghrenameio and the
     methods of their pending file), an explicitly listed exception that DOES
     concern one of the three kinds, or explicitly listed as concerning some
@@ -23,7 +24,9 @@ Inductive wkind :=
   | KRemove          (* os.Remove, os.RemoveAll *)
   | KTruncate        (* os.Truncate, File.Truncate *)
   | KMkdir           (* os.Mkdir, MkdirAll, MkdirTemp, ioutil.TempDir *)
-  | KOther           (* os.Link, os.Symlink, bbolt.Open, a lumberjack.Logger literal *)
+  | KOther           (* os.Link, os.Symlink, os.CopyFS, os.NewFile, os.OpenRoot, bbolt.Open, a lumberjack.Logger literal *)
+  | KRawSyscall      (* syscall.* / unix.*: open, write, truncate, rename, link, unlink ... and Syscall* itself *)
+  | KHandRolled      (* a function that opens a file for writing and renames: a home-made atomic writer *)
   | KUnresolved.     (* missing package, parse error, dot import *)
 
 Record wcall := mkw { w_file : string; w_func : string; w_callee : string; w_kind : wkind; w_line : N }.
@@ -73,7 +76,19 @@ Definition other_files : list entry := [
   ("internal/home/log.go", "configureLogger", "lumberjack.Logger", 1%N, "the log file, appended and rotated by lumberjack");
   ("internal/home/service.go", "handleServiceUninstallCommand", "os.Remove", 2%N,
    "launchd stdout/stderr log files on service uninstall (darwin only at run time)");
-  ("internal/filtering/filtering.go", "New", "os.MkdirAll", 1%N, "creates data/filters")
+  ("internal/filtering/filtering.go", "New", "os.MkdirAll", 1%N, "creates data/filters");
+  ("internal/updater/updater.go", "backup", "os.Mkdir", 1%N, "creates the agh-backup directory");
+  ("internal/updater/updater.go", "replace", "os.Rename", 2%N,
+   "moves the running executable to the backup directory and the new executable into its place");
+  ("internal/updater/updater.go", "clean", "os.RemoveAll", 1%N, "removes the directory the update was unpacked into");
+  ("internal/updater/updater.go", "downloadPackageFile", "os.Mkdir", 1%N, "creates the update directory");
+  ("internal/updater/updater.go", "downloadPackageFile", "os.WriteFile", 1%N, "the downloaded release archive inside the update directory");
+  ("internal/updater/updater.go", "tarGzFileUnpackOne", "os.Mkdir", 1%N, "directories of the unpacked archive inside the update directory");
+  ("internal/updater/updater.go", "tarGzFileUnpackOne", "os.OpenFile", 1%N, "files of the unpacked archive inside the update directory");
+  ("internal/updater/updater.go", "zipFileUnpackOne", "os.Mkdir", 1%N, "directories of the unpacked archive inside the update directory");
+  ("internal/updater/updater.go", "zipFileUnpackOne", "os.OpenFile", 1%N, "files of the unpacked archive inside the update directory");
+  ("internal/updater/updater.go", "copyFile", "os.WriteFile", 1%N,
+   "destinations are the COPY of the configuration file in agh-backup (the configuration file itself is only read), the supporting files of the release (LICENSE, README, CHANGELOG) and, where renaming is impossible, the executable")
 ].
 
 Definition matches (w : wcall) (e : entry) : bool :=
@@ -105,7 +120,10 @@ Definition expected_sites : list (string * string * string) := [
   ("internal/aghrenameio/renameio_unix.go", "newPendingFile", "renameio.NewPendingFile");
   ("internal/aghrenameio/renameio_unix.go", "CloseReplace", "<pending>.CloseAtomicallyReplace");
   ("internal/filtering/rulelist/filter.go", "readFromHTTP", "aghrenameio.NewPendingFile");
-  ("internal/dhcpd/http_unix.go", "handleReset", "os.Remove")
+  ("internal/dhcpd/http_unix.go", "handleReset", "os.Remove");
+  ("internal/dhcpsvc/db.go", "dbStore", "maybe.WriteFile");
+  ("internal/next/configmgr/configmgr.go", "write", "maybe.WriteFile");
+  ("internal/updater/updater.go", "copyFile", "os.WriteFile")
 ].
 
 Definition sites_present (l : list wcall) : bool :=
